@@ -477,7 +477,14 @@ def _fire_and_forget_write_error(exc_type, text: str) -> bool:
     'Task exception was never retrieved' at collection time.  The broken connection itself is handled (and judged)
     through the connection's state changes; the unretrieved exception of the forgotten task is noise, not a
     violation of any property (seen once in 400 000 C13 histories: server reset while its writes were suspended)."""
-    return exc_type == 'ConnectionWriteError' and 'queue-message-task' in text and 'never retrieved' in text
+    if exc_type != 'ConnectionWriteError':
+        return False
+    if 'queue-message-task' in text and 'never retrieved' in text:
+        return True
+    # a message handler that was sending when the (fault-injected) connection broke ends with the write error; the
+    # event bus logs it ("exception notifying listener") and goes on - an expected consequence of the fault, the
+    # loss itself is judged through the connection and session rules of the properties
+    return 'exception notifying listener' in text
 
 
 def _site(msg: str) -> str:
